@@ -68,7 +68,10 @@ TEXTS = {
     "C16": {
         "text": "Theorems (Properties/C16.v): about the transcription — ancestor sets depend only on the parent RELATION (two arenas with the "
                 "same links, whatever the supply order and fuel, get the same ancestor sets), inherited annotations depend on the fact list "
-                "through membership only; and observations accepted by spec_C16 are pairwise identical. The check builds every fact set in "
+                "through membership only; THE PROPERTY FOR ANY TWO BUILDER SCRIPTS (C16_builder_scripts_order_independent): whatever calls in whatever "
+                "order, failing ones included — if the finished ontologies agree on the direct facts (is_a links, record ids per kind, direct "
+                "terms of every record) then every term has in both the same parents, children, ancestor cache, three annotation sets and "
+                "information content; and observations accepted by spec_C16 are pairwise identical. The check builds every fact set in "
                 "three independent random orders (incl. leaf-first / root-first supplies of 36-90-term chains) with the real Builder and with "
                 "the model and demands identical canonical dumps.",
         "design_ref": "DESIGN.md §4 C16, §9", "note": NOTE_COMMON, "technique": TECH,
@@ -216,8 +219,10 @@ TEXTS = {
                 "for every source ontology with exact caches (every Builder-built one), every root and leaves, a successful call returns an "
                 "ontology that again has unique ids, resolving links, sorted groups and EXACT ancestor caches, whose terms are exactly the "
                 "retained ids, and whose links are exactly the INDUCED ones (c -> p iff both retained and c -> p in the source); "
-                "add_parent_unchecked on two present terms is add_parent. PARTIAL: the "
-                "annotation filter of the transcription has no theorem; spec_C14 states retained set, induced links, copied names/flags, "
+                "add_parent_unchecked on two present terms is add_parent. ANNOTATIONS (C14_model_annotations): a record of the source is kept iff "
+                "one of its direct terms is a retained term that is neither a modifier root nor below one; a kept record keeps exactly its "
+                "direct terms that are retained; the result is acyclic and every one of its terms carries exactly the kept records with a "
+                "retained direct term at the term or below it (the C02 statement holds again in the result). spec_C14 states retained set, induced links, copied names/flags, "
                 "preserved distances, refusal iff a leaf is outside the subtree, the annotation filter, and re-runs the executable statements "
                 "of C01-C03 on the result, evaluated on the crate's observation; the transcription is diffed against the crate.",
         "design_ref": "DESIGN.md §4 C14, §9", "note": NOTE_COMMON, "technique": TECH,
